@@ -6,7 +6,7 @@ From Coq Require Import Lia ZArith.
 Local Open Scope nat_scope.
 
 Lemma clamp_same k : clamp k (Z.of_nat k) = k.
-Proof. unfold clamp. rewrite Z.gtb_ltb, Z.ltb_irrefl. reflexivity. Qed.
+Proof. rewrite clamp_min, Nat2Z.id. lia. Qed.
 
 Section Complete.
   Variable H : str -> str -> str.
@@ -213,7 +213,7 @@ Section Complete.
 
   (* ---------------------------------------------------------------- CopyBuffer, any buffer size *)
   Lemma clamp_pos k n : 1 <= k -> (0 < n)%Z -> 1 <= clamp k n.
-  Proof. unfold clamp. intros. destruct (Z.of_nat k >? n)%Z; lia. Qed.
+  Proof. rewrite clamp_min. lia. Qed.
 
   Lemma copy_loop_exact bufsz : 1 <= bufsz -> forall fuel evs out N,
     nfail evs = 0 -> ev_weight evs < fuel -> N = Z.of_nat (length (stream evs)) ->
